@@ -5,6 +5,7 @@
 From Coq Require Import List NArith Bool.
 From V.common Require Import Wire.
 From V.C11 Require Import Model.
+From V.C11 Require HSModel.
 Import ListNotations.
 Open Scope N_scope.
 
@@ -19,8 +20,11 @@ Definition p_op : parser op :=
   | 0 => pret (Established p) | 1 => pret (ConnClosed p) | 2 => pret (SubIn p) | 3 => pret (SubOut p)
   | 4 => pret (OpenFail p) | 5 => pret (DialFail p) | 6 => pret (HsIn p b) | 7 => pret (HsOut p b)
   | 8 => pret (Validate p b) | 9 => pret (Timer p) | 10 => pret (CmdOpen p) | 11 => pret (CmdClose p)
-  | 12 => pret (CmdForce p) | 13 => pret (TaskDie p b) | 14 => pret (Release p) | 15 => pret (KillChan p)
-  | 16 => pret (Gate p) | 17 => pret (Notify p) | 18 => pret (NotifyDie p b)
+  (* 13 / 18: bit 0 of the argument = the substream closes are held back; the higher bits name what ends the
+     stream (inbound EOF, inbound error frame, outbound write error): one and the same transition. 4: the
+     argument names the SubstreamError variant; 15: 0 = channel closed, 1 = channel full *)
+  | 12 => pret (CmdForce p) | 13 => pret (TaskDie p (N.odd a)) | 14 => pret (Release p b) | 15 => pret (KillChan p)
+  | 16 => pret (Gate p) | 17 => pret (Notify p) | 18 => pret (NotifyDie p (N.odd a))
   | 20 => pret (GrabSink p) | 21 => pret (SendSync p a) | 22 => pret (SendAsync p a)
   | 23 => pret (SinkSync p a) | 24 => pret (SinkAsync p a)
   | _ => pfail
@@ -30,15 +34,34 @@ Definition p_op : parser op :=
    sleeps > 5 s and the real futures_timer timers fire, oldest first; the model handles one `Timer p`
    per armed timer. A case with a SleepAll contains no hook-fired Timer events (they are dropped here
    and skipped by the harness) because the real timer of a hook-fired entry would fire again. *)
-Inductive gop := GOp (o : op) | GSleepAll.
+(* kinds 26 / 27: open_substream_batch / close_substream_batch: ONE NotificationCommand for several peers, which
+   the protocol works through in the iteration order of a HashSet. The argument lists the peers in the order
+   the implementation took them (base-4 digits, least significant first, digit = peer + 1, 0 ends the list;
+   the harness writes the order it observed into the case). The handle filters the peers against its gate
+   when the call is made and each on_open_substream / on_close_substream only touches its own peer
+   (C11_isolation), so the command is the sequence of the single-peer commands; events and calls of the one
+   step are printed sorted by peer. *)
+Inductive gop := GOp (o : op) | GSleepAll | GBatch (open : bool) (l : list peer)
+                | GSleepLong.   (* kind 28: the harness really sleeps > 10 s: every substream the HandshakeService
+                                   holds runs into NEGOTIATION_TIMEOUT (NegotiationError), then every 5 s timer that
+                                   was armed before the sleep fires; events and calls of the step are printed by peer *)
+
+Fixpoint digits4 (fuel : nat) (a : N) : list peer :=
+  match fuel with
+  | O => []
+  | S f => if a mod 4 =? 0 then [] else (a mod 4 - 1) :: digits4 f (a / 4)
+  end.
 
 Definition p_gop : parser gop :=
   fun l => match l with
            | 19 :: _ :: _ :: rest => Some (GSleepAll, rest)
+           | 26 :: _ :: a :: rest => Some (GBatch true (digits4 3 a), rest)
+           | 27 :: _ :: a :: rest => Some (GBatch false (digits4 3 a), rest)
+           | 28 :: _ :: _ :: rest => Some (GSleepLong, rest)
            | _ => match p_op l with Some (o, rest) => Some (GOp o, rest) | None => None end
            end.
 
-Definition is_sleep (g : gop) : bool := match g with GSleepAll => true | _ => false end.
+Definition is_sleep (g : gop) : bool := match g with GSleepAll | GSleepLong => true | _ => false end.
 Definition is_timer (g : gop) : bool := match g with GOp (Timer _) => true | _ => false end.
 
 Definition decode_case (l : list N) : option (cfg * list gop) :=
@@ -50,14 +73,18 @@ Definition decode_case (l : list N) : option (cfg * list gop) :=
 
 (* ---- encoders ---- *)
 Definition enc_dir (d : dir) : N := match d with DIn => 0 | DOut => 1 end.
-Definition enc_ev (e : uev) : list N :=
+(* a NotificationReceived is printed with the stream it arrived on (1 + ordinal of the Connection task;
+   the harness puts that ordinal into the payload when the remote sends the notification): `tag` *)
+Definition enc_ev (tag : peer -> N) (e : uev) : list N :=
   match e with
   | UValidate p => [0; p; 0]
   | UOpened p d => [1; p; enc_dir d]
   | UClosed p => [2; p; 0]
   | UFail p e => [3; p; e]
-  | UNotif p => [4; p; 0]
+  | UNotif p => [4; p; tag p]
+  | UClosedT p k => [5; p; k]   (* never part of a trace: the handle passes it on as UClosed or ignores it *)
   end.
+Definition tag_of (x : option N) : N := match x with Some k => k + 1 | None => 0 end.
 Definition enc_call (c : call) : list N :=
   match c with
   | CDial p => [0; p; 0] | COpen p x => [1; p; x] | CForce p => [2; p; 0]
@@ -89,11 +116,13 @@ Definition dump (s : st) : list N :=
   enc_list (fun e : sid * peer => [fst e; snd e]) (sort_by fst (pend s)) ++
   [N.of_nat (length (tasks s)); narm s].
 
-Fixpoint enc_run (r : list (st * list uev * list call)) : list N :=
+(* eager user: the notification of a step was forwarded by the newest Connection task of the peer in the
+   state before the step (Model.notifs_of) *)
+Fixpoint enc_run (pre : st) (r : list (st * list uev * list call)) : list N :=
   match r with
   | [] => []
   | (s, ev, calls) :: t =>
-      1 :: enc_list enc_ev ev ++ enc_list enc_call calls ++ dump s ++ enc_run t
+      1 :: enc_list (enc_ev (fun p => tag_of (lastt pre p))) ev ++ enc_list enc_call calls ++ dump s ++ enc_run s t
   end.
 
 (* all armed timers fire, oldest first: one Timer step per entry of the snapshot *)
@@ -111,8 +140,64 @@ Fixpoint fire_all (c : cfg) (s : st) (l : list peer) : res :=
       end
   end.
 
+(* the single-peer commands of a batch, one after the other *)
+Fixpoint batch_all (c : cfg) (s : st) (open : bool) (l : list peer) : res :=
+  match l with
+  | [] => ok s
+  | p :: t =>
+      match step c s (if open then CmdOpen p else CmdClose p) with
+      | Some (s1, e1, c1) =>
+          match batch_all c s1 open t with
+          | Some (s2, e2, c2) => Some (s2, e1 ++ e2, c1 ++ c2)
+          | None => None
+          end
+      | None => None
+      end
+  end.
+
+Definition ev_peer0 (e : uev) : peer :=
+  match e with UValidate p | UOpened p _ | UClosed p | UFail p _ | UNotif p | UClosedT p _ => p end.
+Definition call_peer0 (c : call) : peer :=
+  match c with CDial p | COpen p _ | CForce p | CRet p _ | CWire p _ _ => p end.
+
+(* the 10 s negotiation timeout of every substream in the HandshakeService: one NegotiationError per peer
+   (the handler drops both substreams of the peer) *)
+Fixpoint hs_timeouts (c : cfg) (s : st) (l : list peer) : res :=
+  match l with
+  | [] => ok s
+  | p :: t =>
+      match (if hsI s p then step c s (HsIn p false) else if hsO s p then step c s (HsOut p false) else ok s) with
+      | Some (s1, e1, c1) =>
+          match hs_timeouts c s1 t with
+          | Some (s2, e2, c2) => Some (s2, e1 ++ e2, c1 ++ c2)
+          | None => None
+          end
+      | None => None
+      end
+  end.
+
+Definition by_peer {A} (key : A -> peer) (l : list A) : list A :=
+  flat_map (fun p => filter (fun x => key x =? p) l) peers_l.
+
 Definition gstep (c : cfg) (s : st) (g : gop) : res :=
-  match g with GOp o => step c s o | GSleepAll => fire_all c s (timers s) end.
+  match g with
+  | GSleepLong =>
+      match hs_timeouts c s peers_l with
+      | Some (s1, e1, c1) =>
+          match fire_all c s1 (timers s) with
+          | Some (s2, e2, c2) => Some (s2, by_peer ev_peer0 (e1 ++ e2), by_peer call_peer0 (c1 ++ c2))
+          | None => None
+          end
+      | None => None
+      end
+  | GOp o => step c s o
+  | GSleepAll => fire_all c s (timers s)
+  | GBatch open l =>
+      match batch_all c s open l with
+      | Some (s1, ev, cl) => Some (s1, sort_by ev_peer0 ev, sort_by call_peer0 cl)
+      | None => None
+      end
+  end.
 
 Fixpoint grun (c : cfg) (s : st) (l : list gop) : list (st * list uev * list call) * bool :=
   match l with
@@ -128,7 +213,7 @@ Definition run_ecase (l : list N) : list N :=
   match decode_case l with
   | Some (c, ops) =>
       let '(r, fin) := grun c init ops in
-      1 :: enc_run r ++ (if fin then [] else [2])
+      1 :: enc_run init r ++ (if fin then [] else [2])
   | None => [0]
   end.
 
@@ -150,11 +235,14 @@ Definition ldump (cap : nat) (l : lst) : list N :=
   flat_map (fun p => [b2n (hopen (ls l) p); b2n (hval (ls l) p)]) peers_l ++
   [N.of_nat (Nat.min cap (length (lq l))); b2n (parked cap l)].
 
-Fixpoint enc_lrun (cap : nat) (r : list (lst * list uev * list call)) : list N :=
+(* late-polling user: a notification is handed out only if it arrived on the stream whose sink the handle
+   holds before the poll (Model.sink_is, theorem C11_lazy_notification_in_its_period) *)
+Fixpoint enc_lrun (cap : nat) (pre : lst) (r : list (lst * list uev * list call)) : list N :=
   match r with
   | [] => []
   | (l, ev, calls) :: t =>
-      1 :: enc_list enc_ev ev ++ enc_list enc_call calls ++ ldump cap l ++ enc_lrun cap t
+      1 :: enc_list (enc_ev (fun p => tag_of (hsink (ls pre) p))) ev ++ enc_list enc_call calls ++ ldump cap l ++
+      enc_lrun cap l t
   end.
 
 Definition run_lcase (l : list N) : list N :=
@@ -162,23 +250,86 @@ Definition run_lcase (l : list N) : list N :=
   | Some (c, ops) =>
       let cap := N.to_nat (case_cap l) in
       let '(r, fin) := lrun c cap linit ops in
-      1 :: enc_lrun cap r ++ (if fin then [] else [2])
+      1 :: enc_lrun cap linit r ++ (if fin then [] else [2])
   | None => [0]
   end.
 
+(* ---- second kind of case (first number 7000): the HandshakeService on its own (HSModel.v) ----
+   case  : 7000 nops (kind a b)* ; trace: 1 then per op: 0 | 1 kind key rd ; held(key 0..5) len *)
+Fixpoint digits7 (fuel : nat) (a : N) : list N :=
+  match fuel with
+  | O => []
+  | S f => if a mod 7 =? 0 then [] else (a mod 7 - 1) :: digits7 f (a / 7)
+  end.
+
+Definition p_hop : parser HSModel.hop :=
+  let* k := pN in let* a := pN in let* b := pN in
+  match k with
+  | 0 => if a <? 3 then pret (HSModel.HCall (HSModel.NegOut a)) else pfail
+  | 1 => if a <? 3 then pret (HSModel.HCall (HSModel.ReadIn a)) else pfail
+  | 2 => if a <? 3 then pret (HSModel.HCall (HSModel.SendIn a)) else pfail
+  | 3 => if a <? 3 then pret (HSModel.HCall (HSModel.RemOut a)) else pfail
+  | 4 => if a <? 3 then pret (HSModel.HCall (HSModel.RemIn a)) else pfail
+  | 5 => if a <? 6 then
+           match b with
+           | 0 => pret (HSModel.HEnv a HSModel.EFrame) | 1 => pret (HSModel.HEnv a HSModel.EEof) | 2 => pret (HSModel.HEnv a HSModel.EWerr)
+           | 3 => pret (HSModel.HEnv a HSModel.EFlush) | 4 => pret (HSModel.HEnv a HSModel.ETimeout) | _ => pfail
+           end
+         else pfail
+  | 6 => pret (HSModel.HPoll (digits7 6 a))
+  | _ => pfail
+  end.
+
+Definition decode_hcase (l : list N) : option (list HSModel.hop) :=
+  match l with
+  | 7000 :: rest => pall (plist p_hop) rest
+  | _ => None
+  end.
+
+Definition hkeys : list N := [0; 1; 2; 3; 4; 5].
+Definition hdump (h : HSModel.hs) : list N :=
+  map (fun k => b2n (HSModel.has k h)) hkeys ++ [N.of_nat (length (HSModel.ents h) + length (HSModel.ready h))].
+
+Definition enc_pres (o : HSModel.hop) (r : HSModel.pres) : list N :=
+  match o with
+  | HSModel.HPoll _ =>
+      match r with
+      | HSModel.PPending => [1; 0; 0; 0]
+      | HSModel.PNeg k rd => [1; 1; k; b2n rd]
+      | HSModel.PErr k => [1; 2; k; 0]
+      end
+  | _ => [0]
+  end.
+
+Fixpoint enc_hrun (ops : list HSModel.hop) (r : list (HSModel.hs * HSModel.pres)) : list N :=
+  match ops, r with
+  | o :: ops', (h, x) :: r' => enc_pres o x ++ hdump h ++ enc_hrun ops' r'
+  | _, _ => []
+  end.
+
+Definition run_hcase (l : list N) : list N :=
+  match decode_hcase l with
+  | Some ops => 1 :: enc_hrun ops (HSModel.hrun HSModel.hs0 ops)
+  | None => [0]
+  end.
+
+Definition is_hcase (l : list N) : bool := match l with 7000 :: _ => true | _ => false end.
+
 Definition run_case (l : list N) : list N :=
+  if is_hcase l then run_hcase l else
   if case_cap l =? 0 then run_ecase l else run_lcase l.
 
 (* ---- decoding a trace ---- *)
 Record pobs := mkPobs { o_ps : option pstate; o_hsI : bool; o_hsO : bool; o_hopen : bool; o_hval : bool }.
-Record sobs := mkSobs { o_ev : list uev; o_calls : list call; o_peers : list pobs; o_pend : list (sid * peer); o_tasks : N; o_narm : N }.
+Record sobs := mkSobs { o_ev : list uev; o_evt : list (uev * N); o_calls : list call; o_peers : list pobs; o_pend : list (sid * peer); o_tasks : N; o_narm : N }.
 
 Definition p_dir : parser dir := let* x := pN in pret (if x =? 0 then DIn else DOut).
-Definition p_ev : parser uev :=
+(* an event together with its third number (for NotificationReceived: the stream tag) *)
+Definition p_ev : parser (uev * N) :=
   let* k := pN in let* p := pN in let* a := pN in
   match k with
-  | 0 => pret (UValidate p) | 1 => pret (UOpened p (if a =? 0 then DIn else DOut))
-  | 2 => pret (UClosed p) | 3 => pret (UFail p a) | 4 => pret (UNotif p) | _ => pfail
+  | 0 => pret (UValidate p, a) | 1 => pret (UOpened p (if a =? 0 then DIn else DOut), a)
+  | 2 => pret (UClosed p, a) | 3 => pret (UFail p a, a) | 4 => pret (UNotif p, a) | _ => pfail
   end.
 Definition p_call : parser call :=
   let* k := pN in let* p := pN in let* a := pN in
@@ -224,7 +375,7 @@ Definition p_sobs : parser sobs :=
   let* pe := plist (let* x := pN in let* q := pN in pret (x, q)) in
   let* t := pN in
   let* na := pN in
-  pret (mkSobs ev calls pp pe t na).
+  pret (mkSobs (map fst ev) ev calls pp pe t na).
 
 (* steps of a trace; the flag tells whether the trace ended with a stuck step *)
 Fixpoint p_steps (fuel : nat) : parser (list sobs * bool) :=
@@ -260,7 +411,7 @@ Definition pobs_eqb (a b : pobs) : bool :=
   Bool.eqb (o_hopen a) (o_hopen b) && Bool.eqb (o_hval a) (o_hval b).
 
 Definition ev_peer (e : uev) : peer :=
-  match e with UValidate p | UOpened p _ | UClosed p | UFail p _ | UNotif p => p end.
+  match e with UValidate p | UOpened p _ | UClosed p | UFail p _ | UNotif p | UClosedT p _ => p end.
 Definition call_peer (c : call) : peer :=
   match c with CDial p | COpen p _ | CForce p | CRet p _ | CWire p _ _ => p end.
 
@@ -275,11 +426,13 @@ Definition in_progress (x : option pstate) : bool :=
   | _ => false
   end.
 Definition is_open (x : option pstate) : bool := match x with Some (Open _) => true | _ => false end.
+(* the substream id an outbound attempt in progress waits for (an id merely remembered in
+   PeerState::Closed is not waited for: since the repair of the former finding class 2 it is adopted by
+   an open request only while pending_outbound still lists it) *)
 Definition waits_for (x : option pstate) : option sid :=
   match x with
   | Some (OutInit y) => Some y
   | Some (Validating _ (OInit y) _) => Some y
-  | Some (Closed (Some y)) => Some y
   | _ => None
   end.
 
@@ -296,45 +449,44 @@ Definition has_validate (p : peer) (l : list uev) : bool :=
 Record omem := mkOmem {
   m_prev : list pobs;
   m_opened : peer -> bool;              (* user view: last of Opened/Closed was Opened *)
-  m_gated : peer -> bool;               (* a Connection task of the peer may be slow to close *)
   m_req : list (sid * peer);            (* open_substream requests not answered by the case *)
-  m_failed : list sid;                  (* requests answered with a failure *)
   m_cnt : N;                            (* NotificationStreamOpened events so far = stream periods *)
   m_sink : peer -> option N;            (* the period whose sink the handle holds for the peer *)
   m_usink : peer -> option N            (* the period of the sink clone the user keeps *)
 }.
 
 Definition omem0 : omem :=
-  mkOmem [absent; absent; absent] (fun _ => false) (fun _ => false) [] [] 0 (fun _ => None) (fun _ => None).
+  mkOmem [absent; absent; absent] (fun _ => false) [] 0 (fun _ => None) (fun _ => None).
 
-(* failures: bit 0 = outside every known class, bit 1 = class 1 (slow close), bit 2 = class 2
-   (failed substream id kept pending), bit 3 = class 3 (user Reject drops the open request) *)
+(* failures: bit 0 = outside every known class, bit 3 = class 3 (user Reject drops the open request);
+   classes 1 (slow close: Closed reported after the next Opened) and 2 (failed substream id adopted by the
+   next open request) were repaired in the code and are ordinary violations now *)
 Definition F_GEN : N := 1.
-Definition F_SLOW : N := 2.
-Definition F_KEPT : N := 4.
 Definition F_REJ : N := 8.
 
-(* grammar of the user-visible events of one step, in order *)
-Fixpoint grammar (opened : peer -> bool) (gated : peer -> bool) (l : list uev) : (peer -> bool) * N :=
+(* grammar of the user-visible events of one step, in order: Opened and Closed alternate per peer, no
+   OpenFailure and every NotificationReceived between an Opened and its Closed, whatever the Connection
+   tasks do and however slowly they close *)
+Fixpoint grammar (opened : peer -> bool) (l : list uev) : (peer -> bool) * N :=
   match l with
   | [] => (opened, 0)
   | e :: t =>
-      let bad p := if gated p then F_SLOW else F_GEN in
       match e with
       | UOpened p _ =>
-          let '(o', f) := grammar (upd opened p true) gated t in
-          (o', N.lor (if opened p then bad p else 0) f)
+          let '(o', f) := grammar (upd opened p true) t in
+          (o', N.lor (if opened p then F_GEN else 0) f)
       | UClosed p =>
-          let '(o', f) := grammar (upd opened p false) gated t in
-          (o', N.lor (if opened p then 0 else bad p) f)
+          let '(o', f) := grammar (upd opened p false) t in
+          (o', N.lor (if opened p then 0 else F_GEN) f)
       | UFail p _ =>
-          let '(o', f) := grammar opened gated t in
-          (o', N.lor (if opened p then bad p else 0) f)
+          let '(o', f) := grammar opened t in
+          (o', N.lor (if opened p then F_GEN else 0) f)
       | UNotif p =>
           (* notifications are delivered only between Opened and Closed *)
-          let '(o', f) := grammar opened gated t in
-          (o', N.lor (if opened p then 0 else bad p) f)
-      | UValidate _ => grammar opened gated t
+          let '(o', f) := grammar opened t in
+          (o', N.lor (if opened p then 0 else F_GEN) f)
+      | UValidate _ => grammar opened t
+      | UClosedT _ _ => let '(o', f) := grammar opened t in (o', N.lor F_GEN f)   (* not a user event *)
       end
   end.
 
@@ -348,21 +500,37 @@ Fixpoint sinks (cnt : N) (sk : peer -> option N) (l : list uev) : N * (peer -> o
   | _ :: t => sinks cnt sk t
   end.
 
+(* "receives notifications only between the two": a NotificationReceived is handed out only while the user
+   sees a stream of the peer open, and it arrived on THAT stream (periods are numbered in the order of the
+   Opened events; the tag of a notification is 1 + the period it was sent in) *)
+Fixpoint ntags_ok (cnt : N) (sk : peer -> option N) (l : list (uev * N)) : bool :=
+  match l with
+  | [] => true
+  | (UOpened p _, _) :: t => ntags_ok (cnt + 1) (upd sk p (Some cnt)) t
+  | (UClosed p, _) :: t => ntags_ok cnt (upd sk p None) t
+  | (UNotif p, a) :: t => match sk p with Some k => a =? k + 1 | None => false end && ntags_ok cnt sk t
+  | _ :: t => ntags_ok cnt sk t
+  end.
+
 Definition flag (b : bool) (f : N) : N := if b then 0 else f.
+
+(* clause 5 for one peer of an open command *)
+Definition ans_ok (pre post : pobs) (p : peer) (ev : list uev) (calls : list call) : bool :=
+  if o_hopen pre then true else
+  match o_ps pre with
+  | None => has_fail p ev || existsb (fun cl => match cl with CDial q => q =? p | _ => false end) calls
+  | Some (Closed _) => has_fail p ev || in_progress (o_ps post)
+  | Some (VPending _) => has_fail p ev
+  (* the handle lets the request through although the protocol tracks a stream as open: the user was told
+     Closed for a stream that is not closed; the request (connected peer, nothing in progress) is owed an answer *)
+  | Some (Open _) => has_fail p ev || has_opened p ev
+  | _ => true
+  end.
 
 Definition check_step (c : cfg) (m : omem) (o : op) (x : sobs) : omem * N :=
   let p := op_peer o in
   let pre := nth_p (m_prev m) p in
   let post := nth_p (o_peers x) p in
-  (* gating as dictated by the case *)
-  let gated :=
-    match o with
-    | Gate q => upd (m_gated m) q true
-    | TaskDie q true | NotifyDie q true => upd (m_gated m) q true
-    | Release q => upd (m_gated m) q false
-    | _ => m_gated m
-    end in
-  let gated_or := fun q => m_gated m q || gated q in
   (* requests *)
   let req0 :=
     match o with
@@ -371,18 +539,13 @@ Definition check_step (c : cfg) (m : omem) (o : op) (x : sobs) : omem * N :=
         match first_req q (m_req m) with Some y => pend_remove y (m_req m) | None => m_req m end
     | _ => m_req m
     end in
-  let failed :=
-    match o with
-    | OpenFail q => match first_req q (m_req m) with Some y => y :: m_failed m | None => m_failed m end
-    | _ => m_failed m
-    end in
   let req := req0 ++ flat_map (fun cl => match cl with COpen q y => [(y, q)] | _ => [] end) (o_calls x) in
   (* 1. isolation: nothing about other peers changes, nothing is said about other peers *)
   let iso :=
     forallb (fun q => (q =? p) || pobs_eqb (nth_p (m_prev m) q) (nth_p (o_peers x) q)) peers_l &&
     forallb (fun e => ev_peer e =? p) (o_ev x) && forallb (fun cl => call_peer cl =? p) (o_calls x) in
   (* 2. event grammar *)
-  let '(opened', fg) := grammar (m_opened m) gated_or (o_ev x) in
+  let '(opened', fg) := grammar (m_opened m) (o_ev x) in
   (* 3. inbound streams only after an accept *)
   let acc :=
     (negb (has_opened p (o_ev x)) || in_accepted (o_ps pre)) &&
@@ -393,15 +556,11 @@ Definition check_step (c : cfg) (m : omem) (o : op) (x : sobs) : omem * N :=
      | _, _ => false
      end) in
   (* 4. "when the connection to a peer is lost an open stream is reported closed" (also when the user
-     closes it). The report may be late only while the case keeps the Connection task's substream
-     close blocked (Gate / gated TaskDie: the environment of finding class 1); then it is due when the
-     case releases the close: after `Release p` the user may still see p as opened only if a stream
-     is really open. *)
+     closes it): in the same step, however long the Connection task takes to close its substreams *)
   let cl :=
     match o with
-    | ConnClosed _ => negb (is_open (o_ps pre)) || has_closed p (o_ev x) || gated_or p
-    | CmdClose _ => negb (is_open (o_ps pre) && o_hopen pre) || has_closed p (o_ev x) || gated_or p
-    | Release _ => negb (opened' p) || is_open (o_ps post)
+    | ConnClosed _ => negb (is_open (o_ps pre)) || has_closed p (o_ev x)
+    | CmdClose _ => negb (is_open (o_ps pre) && o_hopen pre) || has_closed p (o_ev x)
     | _ => true
     end in
   (* 5. "a request to open a stream to a connected peer with no negotiation in progress is answered":
@@ -410,18 +569,7 @@ Definition check_step (c : cfg) (m : omem) (o : op) (x : sobs) : omem * N :=
      (open_substream returns PeerAlreadyExists: o_hopen); a negotiation, a dial or a stream is already
      in progress (every other peer state: the command is ignored and the outcome of what is in
      progress is the answer). A peer that is not connected is dialed first (CDial) or refused. *)
-  let ans :=
-    match o with
-    | CmdOpen _ =>
-        if o_hopen pre then true else
-        match o_ps pre with
-        | None => has_fail p (o_ev x) || existsb (fun cl => match cl with CDial _ => true | _ => false end) (o_calls x)
-        | Some (Closed _) => has_fail p (o_ev x) || in_progress (o_ps post)
-        | Some (VPending _) => has_fail p (o_ev x)
-        | _ => true
-        end
-    | _ => true
-    end in
+  let ans := match o with CmdOpen _ => ans_ok pre post p (o_ev x) (o_calls x) | _ => true end in
   (* 6. "... answered by exactly one of opened or open-failure": whoever gives up an outbound
      substream the user asked for (or agreed to) says so: in progress -> still in progress, or Open with
      NotificationStreamOpened, or NotificationStreamOpenFailure. The one exception in the code is the
@@ -430,12 +578,11 @@ Definition check_step (c : cfg) (m : omem) (o : op) (x : sobs) : omem * N :=
     negb (in_progress (o_ps pre)) || in_progress (o_ps post) ||
     (is_open (o_ps post) && has_opened p (o_ev x)) || has_fail p (o_ev x) in
   let rej := match o with Validate _ false => true | _ => false end in
-  (* 7. a substream id the protocol waits for is still owed by the transport *)
+  (* 7. a substream id an attempt in progress waits for is still owed by the transport (the request can
+     still be answered): never an id whose open has already failed or that belongs to a closed connection *)
   let owed :=
     match waits_for (o_ps post) with
-    | Some y =>
-        if existsb (fun e => fst e =? y) req then 0
-        else if existsb (N.eqb y) failed then F_KEPT else F_GEN
+    | Some y => if existsb (fun e => (fst e =? y) && (snd e =? p)) req then 0 else F_GEN
     | None => 0
     end in
   (* 8. "can send notifications only between the two": a frame reaches a substream only in a send
@@ -460,21 +607,30 @@ Definition check_step (c : cfg) (m : omem) (o : op) (x : sobs) : omem * N :=
     | _ => m_usink m
     end in
   let '(cnt', sink') := sinks (m_cnt m) (m_sink m) (o_ev x) in
-  (mkOmem (o_peers x) opened' gated req failed cnt' sink' usink',
-   N.lor (flag (iso && acc && cl && ans && send && (leave || rej)) F_GEN)
+  let nt := ntags_ok (m_cnt m) (m_sink m) (o_evt x) in
+  (mkOmem (o_peers x) opened' req cnt' sink' usink',
+   N.lor (flag (iso && acc && cl && ans && send && nt && (leave || rej)) F_GEN)
          (N.lor (flag (leave || negb rej) F_REJ) (N.lor fg owed))).
 
-(* a SleepAll step is a batch of timer events for several peers: only the event grammar and the
-   bookkeeping of the oracle are applied to it *)
-Definition check_batch (m : omem) (x : sobs) : omem * N :=
-  let '(opened', fg) := grammar (m_opened m) (m_gated m) (o_ev x) in
+(* a SleepAll step is a batch of timer events for several peers, a batch command one of user commands for
+   several peers: only the event grammar and the bookkeeping of the oracle are applied to them *)
+Definition check_batch (m : omem) (g : gop) (x : sobs) : omem * N :=
+  let '(opened', fg) := grammar (m_opened m) (o_ev x) in
+  (* every peer of an open_substream_batch is answered like a single open request *)
+  let ansb :=
+    match g with
+    | GBatch true l => forallb (fun q => ans_ok (nth_p (m_prev m) q) (nth_p (o_peers x) q) q (o_ev x) (o_calls x)) l
+    | _ => true
+    end in
   let '(cnt', sink') := sinks (m_cnt m) (m_sink m) (o_ev x) in
-  (mkOmem (o_peers x) opened' (m_gated m) (m_req m) (m_failed m) cnt' sink' (m_usink m), fg).
+  let req := m_req m ++ flat_map (fun cl => match cl with COpen q y => [(y, q)] | _ => [] end) (o_calls x) in
+  (mkOmem (o_peers x) opened' req cnt' sink' (m_usink m),
+   N.lor fg (flag (ntags_ok (m_cnt m) (m_sink m) (o_evt x) && ansb) F_GEN)).
 
 Fixpoint check_steps (c : cfg) (m : omem) (ops : list gop) (tr : list sobs) : N :=
   match ops, tr with
   | g :: ops', x :: tr' =>
-      let '(m', f) := match g with GOp o => check_step c m o x | GSleepAll => check_batch m x end in
+      let '(m', f) := match g with GOp o => check_step c m o x | GSleepAll | GSleepLong | GBatch _ _ => check_batch m g x end in
       N.lor f (check_steps c m' ops' tr')
   | _, _ => 0
   end.
@@ -495,7 +651,7 @@ Definition verdict (case trace : list N) : N :=
 
 (* ---- oracle for lazy-user traces: what the user is handed obeys the same event grammar, the loop is
    never stuck, the channel never holds more than its capacity ---- *)
-Record lobs := mkLobs { lo_ev : list uev; lo_calls : list call; lo_q : N; lo_parked : bool }.
+Record lobs := mkLobs { lo_ev : list uev; lo_evt : list (uev * N); lo_calls : list call; lo_q : N; lo_parked : bool }.
 
 Definition p_lobs : parser lobs :=
   let* ev := plist p_ev in
@@ -503,7 +659,7 @@ Definition p_lobs : parser lobs :=
   let* _ := prep 6 pN in
   let* q := pN in
   let* pk := pBool in
-  pret (mkLobs ev calls q pk).
+  pret (mkLobs (map fst ev) ev calls q pk).
 
 Fixpoint p_lsteps (fuel : nat) : parser (list lobs * bool) :=
   fun l =>
@@ -526,17 +682,12 @@ Fixpoint p_lsteps (fuel : nat) : parser (list lobs * bool) :=
         end
     end.
 
-Fixpoint lcheck (cap : N) (opened gated : peer -> bool) (ops : list lop) (tr : list lobs) : N :=
+Fixpoint lcheck (cap : N) (opened : peer -> bool) (cnt : N) (sk : peer -> option N) (ops : list lop) (tr : list lobs) : N :=
   match ops, tr with
   | g :: ops', x :: tr' =>
-      let gated' :=
-        match g with
-        | LOp (Gate q) | LOp (TaskDie q true) | LOp (NotifyDie q true) => upd gated q true
-        | _ => gated   (* deliveries lag behind: a slow close earlier in the case may show up any time later *)
-        end in
-      let gg := fun q => gated q || gated' q in
-      let '(opened', fg) := grammar opened gg (lo_ev x) in
-      N.lor (N.lor fg (flag (lo_q x <=? cap) F_GEN)) (lcheck cap opened' gated' ops' tr')
+      let '(opened', fg) := grammar opened (lo_ev x) in
+      let '(cnt', sk') := sinks cnt sk (lo_ev x) in
+      N.lor (N.lor fg (flag ((lo_q x <=? cap) && ntags_ok cnt sk (lo_evt x)) F_GEN)) (lcheck cap opened' cnt' sk' ops' tr')
   | _, _ => 0
   end.
 
@@ -547,21 +698,52 @@ Definition lverdict (case trace : list N) : N :=
       | Some (tr, stuck) =>
           if stuck then F_GEN
           else if negb (Nat.eqb (length tr) (length ops)) then F_GEN
-          else lcheck (case_cap case) (fun _ => false) (fun _ => false) ops tr
+          else lcheck (case_cap case) (fun _ => false) 0 (fun _ => None) ops tr
       | None => F_GEN
       end
   | None, [0] => 0
   | _, _ => F_GEN
   end.
 
+(* ---- oracle for HandshakeService traces: what NotificationProtocol relies on (theorems C11_hs_...): an event
+   concerns a substream the service holds, Negotiated hands the substream out (it is gone afterwards), calls
+   and the environment produce no events ---- *)
+Fixpoint hcheck (held : list N) (ops : list HSModel.hop) (tr : list N) : bool :=
+  match ops with
+  | [] => match tr with [] => true | _ => false end
+  | o :: ops' =>
+      match o, tr with
+      | HSModel.HPoll _, 1 :: kind :: k :: rd :: h0 :: h1 :: h2 :: h3 :: h4 :: h5 :: len :: rest =>
+          let now := [h0; h1; h2; h3; h4; h5] in
+          let was := nth (N.to_nat k) held 0 in
+          let is_ := nth (N.to_nat k) now 0 in
+          match kind with
+          | 0 => true
+          | 1 => (was =? 1) && (is_ =? 0)
+          | 2 => was =? 1
+          | _ => false
+          end && hcheck now ops' rest
+      | (HSModel.HCall _ | HSModel.HEnv _ _), 0 :: h0 :: h1 :: h2 :: h3 :: h4 :: h5 :: len :: rest =>
+          hcheck [h0; h1; h2; h3; h4; h5] ops' rest
+      | _, _ => false
+      end
+  end.
+
+Definition hverdict (case trace : list N) : N :=
+  match decode_hcase case, trace with
+  | Some ops, 1 :: body => flag (hcheck [0; 0; 0; 0; 0; 0] ops body) F_GEN
+  | None, [0] => 0
+  | _, _ => F_GEN
+  end.
+
 Definition verdict_any (case trace : list N) : N :=
+  if is_hcase case then hverdict case trace else
   if case_cap case =? 0 then verdict case trace else lverdict case trace.
 
 Definition prop_ok (case trace : list N) : bool := verdict_any case trace =? 0.
 
-(* class 1: KNOWN_FINDINGS "slow close"; class 2: "failed substream id kept pending"; class 3: "the
-   user's Reject drops the user's own open request without an answer" *)
+(* class 3: "the user's Reject drops the user's own open request without an answer" (classes 1, "slow
+   close", and 2, "failed substream id kept pending", were repaired in the code: no longer classes) *)
 Definition known_class (case trace : list N) : N :=
   let v := verdict_any case trace in
-  if N.testbit v 0 then 0 else if N.testbit v 1 then 1 else if N.testbit v 2 then 2
-  else if N.testbit v 3 then 3 else 0.
+  if N.testbit v 0 then 0 else if N.testbit v 3 then 3 else 0.
